@@ -4,7 +4,8 @@
 From Coq Require Import ZArith QArith List Bool Lia Lqa.
 From KV Require Import Base.Outcome Base.Num Base.QLemmas C19.Model C06.Model C06.Dur.
 From KV Require C03.Model.
-From KV Require Import C09.Model C09.ProofsTape.
+From KV Require Import C04.Transport C04.StaticData C04.StaticSound C04.ProofsTransport.
+From KV Require Import C09.Model C09.ProofsTape C09.ProofsMain.
 Import ListNotations.
 Local Open Scope Z_scope.
 
@@ -264,3 +265,72 @@ Section FractionQ.
     rewrite E. split; assumption.
   Qed.
 End FractionQ.
+
+(** ** the simulation theorem in exact arithmetic, with "within one frame" spelled out *)
+Section PosQ.
+  Variable powf : Q -> Q -> Q.
+  Variable A : Type.
+  Variable azero : A.
+  Variable F : Type.
+  Variable interp : A -> A -> A -> A -> F -> A.
+  Variable cast : Q -> F.
+  Variable ascale : A -> F -> A.
+  Variable V : Type.
+  Variable vinterp : V -> V -> Q -> V.
+  Variables silence identity : V.
+  Variable amp : V -> F.
+  Variable P : Type.
+  Variable pinterp : P -> P -> Q -> P.
+  Variable pcenter : P.
+  Variable panned : A -> P -> A.
+  Variable fuel : nat.
+  Variable audio : list A.
+  Variable cap : Z.
+  Variable sr : Z.
+  Variable slice : option (Z * Z).
+  Variable g : settings Q V P.
+  Variable B : Z.
+
+  (** two position reports of the same callback: less than one frame apart, as long as the ring holds the frame
+      being heard *)
+  Definition pos_close (x y : obs Q A) : Prop :=
+    match x, y with
+    | OPos px sx _ _ _, OPos py sy _ _ avail =>
+        sx = sy /\ (2 <= avail -> (0 <= (py - px) * inject_Z sr /\ (py - px) * inject_Z sr < 1)%Q)
+    | OOut f1 s1 e1, OOut f2 s2 e2 => f1 = f2 /\ s1 = s2 /\ e1 = e2
+    | _, _ => False
+    end.
+
+  Lemma simulation_Q : wf_config A azero V P fuel audio sr slice g B -> 0 < sr ->
+    forall (psize land : nat -> nat) (evs : list (event Q V P)),
+      rates_nonneg powf V P g evs -> dts_nonneg V P evs ->
+      exists x0 w0,
+        static_new A azero V silence identity P pcenter fuel sr (audio_source A azero audio) slice g = Ok x0 /\
+        stream_new A azero V silence identity P pcenter audio land sr slice g = Ok w0 /\
+        forall ys,
+          run_stream powf A azero F interp cast ascale V vinterp silence identity amp P pinterp panned fuel
+                     audio psize land cap w0 evs = Ok (ys, false) ->
+          exists xs,
+            run_static powf A azero F interp cast ascale V vinterp silence identity amp P pinterp panned fuel x0 evs = Ok xs /\
+            Forall2 pos_close xs ys.
+  Proof.
+    intros WF Hsr psize land evs Hrates Hdts.
+    destruct (simulation powf A azero F interp cast ascale V vinterp silence identity amp P pinterp pcenter panned fuel
+                         audio cap sr slice g B WF psize land evs Hrates) as (x0 & w0 & Hx & Hw & Hsim).
+    exists x0, w0. split; [exact Hx|]. split; [exact Hw|]. intros ys Hrun.
+    destruct (Hsim ys Hrun) as (xs & Hxs & Hrel). exists xs. split; [exact Hxs|].
+    assert (Hok : w_ok A V P w0).
+    { unfold stream_new in Hw.
+      destruct (match slice with Some (st, e) => sub_chk e st | None => Ok (Z.of_nat (length audio)) end) as [n| |];
+        cbn [obind] in Hw; try discriminate.
+      inversion Hw; subst w0. split; cbn [w_sound z_core y_fpos y_sr]; [split; [apply Qle_refl | reflexivity] | lia]. }
+    pose proof (run_frac A azero F interp cast fuel powf ascale V vinterp silence identity amp P pinterp panned audio
+                         psize land cap evs w0 ys false Hok Hdts Hrun) as Hfrac.
+    clear Hrun Hsim Hxs. revert Hfrac. induction Hrel as [|x y xs ys Hxy _ IH]; intros Hfrac; [constructor|].
+    inversion Hfrac as [|? ? Hy Hys]; subst. constructor; [|exact (IH Hys)].
+    destruct Hxy as [frames st fin | px py st idx cur fp avail Hpx Hpy Hc].
+    - cbn. repeat split.
+    - cbn [pos_close]. split; [reflexivity|]. intros Hav. rewrite (Hc Hav) in Hpy.
+      exact (pos_within idx sr fp px py Hsr Hy Hpx Hpy).
+  Qed.
+End PosQ.
